@@ -264,8 +264,9 @@ def is_text(gs):
 
 
 def mk_reg(kind, root, hid, dsp, gs, handlers=None):
-    if handlers is not None and handlers[hid] == "ameth":
-        dsp = 1          # coroutine-function handlers are run by the custom dispatcher of the driver
+    if handlers is not None and handlers[hid] == "ameth" and dsp == 2:
+        dsp = 1          # a coroutine-function handler: dispatch_same schedules it as a task on the running loop, the
+        #                  custom dispatcher runs it synchronously; dispatch="ui" would only create the coroutine
     if is_text(gs):
         return [kind, root, hid, 0 if dsp == 1 else dsp, None, gs]      # text(s): dispatch="same" / "ui"
     return [kind, root, hid, dsp, gs, None]
@@ -516,9 +517,11 @@ def corpus():
     g_fv = N_("f", True, False, [N_("value")])
     for hk in ("meth", "ameth"):
         for g in (g_v, g_fv):
-            cs.append(dict(objs=objs, handlers=[hk, "func"],
-                           ops=[["Reg", 0, 0, 1, [g], None], ["Reg", 0, 1, 1, [g], None], ["Change", 0, 2], ["Change", 1, 2],
-                                ["CollectOwner", 0], ["Change", 0, 2], ["Change", 1, 2], ["Unreg", 0, 1, 1, [g], None]]))
+            for dsp in (0, 1):      # 0: dispatch_same (a coroutine handler becomes a task), 1: custom dispatcher
+                cs.append(dict(objs=objs, handlers=[hk, "func"],
+                               ops=[["Reg", 0, 0, dsp, [g], None], ["Reg", 0, 1, dsp, [g], None], ["Change", 0, 2],
+                                    ["Change", 1, 2], ["CollectOwner", 0], ["Change", 0, 2], ["Change", 1, 2],
+                                    ["Unreg", 0, 1, dsp, [g], None]]))
     return cs
 
 
@@ -572,14 +575,11 @@ def enum_failure_cases():
     return cs
 
 
-def run_block(ctx, cases, tag, evaluate):
-    saved = hist.evaluate
-    hist.evaluate = evaluate
-    try:
-        hist.run(ctx, "c09_driver.py", cases, to_term, HEADER, CASE_T, key_fn, describe, nontrivial,
-                 relation="C09.Corr.corr_codes (Model.step / Dyn.dstep = observe machinery on every step)", tag=tag)
-    finally:
-        hist.evaluate = saved
+def run_block(ctx, cases, tag):
+    # shards of 100 cases: the terms are large and parsing dominates, so many small shards run in parallel
+    hist.run(ctx, "c09_driver.py", cases, to_term, HEADER, CASE_T, key_fn, describe, nontrivial,
+             relation="C09.Corr.corr_codes (Model.step / Dyn.dstep = observe machinery on every step)", tag=tag,
+             shard=100)
 
 
 def run(ctx):
@@ -603,23 +603,19 @@ def run(ctx):
                        "1-3 handlers (function / bound method) x 3 dispatchers (same, a custom callable, ui on the main thread); a case is "
                        "non-trivial if some step raises or calls a handler; distinct = distinct (pool, handlers, history)")
     rnd = random.Random(ctx.seed)
-    n, maxlen = (480, 10) if ctx.tier == "quick" else (9000, 20)
+    n, maxlen = (900, 10) if ctx.tier == "quick" else (16000, 20)
     if ctx.replay:
         cases = [json.load(open(ctx.replay))["replay"]["case"]]
     else:
         enum = enum_failure_cases()
         if ctx.tier == "quick":
-            enum = rnd.sample(enum, 24)
+            enum = rnd.sample(enum, 40)
         ctx.count("case:failure-at-every-position", len(enum))
         cases = corpus() + enum + [gen_case(rnd, ctx, maxlen) if k % 3 else gen_dyn_case(rnd, ctx, maxlen + 4)
                                    for k in range(n)]
     for c in cases[:2] + cases[-2:]:
         ctx.sample(c)
-    # shards of 100 cases (the terms are large: parsing dominates); one driver run per block of 2400 cases
-    _orig = hist.evaluate
-
-    def evaluate(ctx_, driver, cs, tt, header, case_type, tag, sanitize=False, shard=100):
-        return _orig(ctx_, driver, cs, tt, header, case_type, tag, sanitize=sanitize, shard=shard)
+    # one driver run per block of 2400 cases
     for k in range(0, len(cases), 2400):
-        run_block(ctx, cases[k:k + 2400], "cases%02d" % (k // 2400), evaluate)
+        run_block(ctx, cases[k:k + 2400], "cases%02d" % (k // 2400))
     proof_gate(ctx, ok, log, PROPS)
